@@ -284,3 +284,58 @@ func atomsString(as []Atom) string {
 	}
 	return s
 }
+
+// atomPathsTo enumerates the feasible simple paths from the entry of fn to block target
+// (the path ends when target is entered) with their atoms.
+func (fx *Facts) atomPathsTo(target *ssa.BasicBlock, max int) ([]APath, bool) {
+	fn := target.Parent()
+	var out []APath
+	ok := true
+	var cur Path
+	on := map[*ssa.BasicBlock]bool{}
+	var walk func(b *ssa.BasicBlock)
+	walk = func(b *ssa.BasicBlock) {
+		if !ok {
+			return
+		}
+		cur.Blocks = append(cur.Blocks, b)
+		on[b] = true
+		defer func() {
+			cur.Blocks = cur.Blocks[:len(cur.Blocks)-1]
+			on[b] = false
+		}()
+		if b == target {
+			if len(out) >= max {
+				ok = false
+				return
+			}
+			p := Path{Blocks: append([]*ssa.BasicBlock(nil), cur.Blocks...), Conds: append([]condPol(nil), cur.Conds...)}
+			if p.feasible() {
+				ap := APath{Path: p}
+				for _, c := range p.Conds {
+					ap.Atoms = append(ap.Atoms, fx.atomOf(c.Cond, c.Pol))
+				}
+				out = append(out, ap)
+			}
+			return
+		}
+		var ifi *ssa.If
+		if len(b.Instrs) > 0 {
+			ifi, _ = b.Instrs[len(b.Instrs)-1].(*ssa.If)
+		}
+		for k, s := range b.Succs {
+			if on[s] {
+				continue
+			}
+			if ifi != nil && b.Succs[0] != b.Succs[1] {
+				cur.Conds = append(cur.Conds, condPol{ifi.Cond, k == 0})
+				walk(s)
+				cur.Conds = cur.Conds[:len(cur.Conds)-1]
+			} else {
+				walk(s)
+			}
+		}
+	}
+	walk(fn.Blocks[0])
+	return out, ok
+}
